@@ -18,9 +18,12 @@
      init_ok P n units :=
        init_free (repeat 0 n) units = true      (non-zero, in range, distinct variables)
        /\ forall u, In u units -> entails_lit P u.
-   The constraints of P are arbitrary [pbc].  The trail of the model is the
-   trail of the solver without the second copies of already-true units
-   (Model/SearchPB.v, header).  Statements only; proofs in Proofs/SearchPB.v. *)
+   The constraints of P are arbitrary [pbc].  The code is the one of commit
+   0a73d0f: a learned unit that is already a level-1 fact is skipped, and when
+   every unit found by SimplifyPB is already a fact cuttingPlanes learns the
+   whole constraint (Model/SearchPB.v, Model/CPSearch.v cp_finish); the
+   successor function of the commits before is kept as conflict_succ_old for
+   C14c_livelock_old_refuted.  Statements only; proofs in Proofs/SearchPB.v. *)
 From Coq Require Import List ZArith Bool.
 From GS Require Import Spec.Base Spec.PB Model.PBNorm Model.CP Model.CPSearch Model.SearchPB
                        Proofs.CPSearch Proofs.SearchPB.
@@ -97,6 +100,72 @@ Theorem C14c_no_crash : forall P n units,
   init_ok P n units -> ~ prun P n (init_pconfig n units) PCrashed.
 Proof. exact search_pb_no_crash. Qed.
 Print Assumptions C14c_no_crash.
+
+(* ---- progress of a conflict step (what commit 0a73d0f buys) ---- *)
+
+(* Every conflict step of every run ends the run with Unsat, or leads to a
+   doomed configuration (no model, the units loop ends with Unsat), or binds a
+   NEW level-1 fact (ghost list unchanged), or learns a constraint that is
+   asserting: it is consed onto ps_learned and ps_ghost, the level drops to a
+   level >= 2 below the conflict level, and the constraint is an acceptable
+   reason (reason_okb: contains the literal, slack below its weight) of the
+   literal bound at that level.
+     progress P n s cf := match cf with
+       | PFinal PUnsat => True
+       | PRunning s' => doom P s' \/ (ps_ghost s' = ps_ghost s /\ new_fact s s') \/ new_asserting n s s'
+       | _ => False end *)
+Theorem C14c_conflict_progress : forall P n units tr md rs L lvl G c,
+  init_ok P n units ->
+  prun P n (init_pconfig n units) (PRunning (PState tr md rs L lvl [] G)) ->
+  In c (P ++ L) -> confl_chk n md c = true ->
+  progress P n (PState tr md rs L lvl [] G) (conflict_succ (PState tr md rs L lvl [] G) c).
+Proof. exact search_pb_conflict_progress. Qed.
+Print Assumptions C14c_conflict_progress.
+
+(* in particular a conflict step never maps a configuration to one with the same
+   list of learned constraints and no new level-1 fact *)
+Theorem C14c_conflict_not_stationary : forall P n units tr md rs L lvl G c s',
+  init_ok P n units ->
+  prun P n (init_pconfig n units) (PRunning (PState tr md rs L lvl [] G)) ->
+  In c (P ++ L) -> confl_chk n md c = true ->
+  conflict_succ (PState tr md rs L lvl [] G) c = PRunning s' ->
+  doom P s' \/ ps_ghost s' <> G \/
+  exists x, In x (ps_trail s') /\ Z.abs (model_at (ps_model s') x) = 1 /\ Z.abs (model_at md x) <> 1.
+Proof. exact search_pb_conflict_not_stationary. Qed.
+Print Assumptions C14c_conflict_not_stationary.
+
+(* REFUTED for the code before 0a73d0f (conflict_succ_old = cp_finish_v1 and the
+   unit loop that pushed every unit): on the satisfiable problem
+     2 x6 +2 x4 +2 x5 +1 ~x3 +2 ~x1 >= 7 ;  x7 + ~x5 + x1 + x2 + ~x6 + x3 + x4 >= 4
+   the configuration S reached after the first conflict (trail [x4], level 1,
+   nothing learned) is mapped back to S by three decisions, two propagations and
+   the conflict step: cuttingPlanes returns the unit x4, which is already a fact,
+   and the learned constraint is dropped.  The real solver went round this cycle
+   (with two similar ones) for ever. *)
+Theorem C14c_livelock_old_refuted :
+  exists S s1,
+    replay_pb ex_live 7 [] ex_live_pre = Some (PRunning S) /\
+    preplay_from ex_live 7 (PRunning S) ex_live_dp = Some (PRunning s1) /\
+    ps_pending s1 = [] /\ confl_chk 7 (ps_model s1) go_B = true /\
+    fst (cutting_planes_mid_full (cp_state s1 go_B)) = CPUnits [4] /\
+    conflict_succ_old s1 go_B = PRunning S.
+Proof. exact livelock_old. Qed.
+Print Assumptions C14c_livelock_old_refuted.
+
+(* the same step now: the whole constraint 3 x4 + ~x1 + x2 + x5 + x6 + x7 >= 7 is
+   learned, back-jump to level 3, x6 bound with it as reason *)
+Theorem C14c_livelock_repaired :
+  exists S s1,
+    replay_pb ex_live 7 [] ex_live_pre = Some (PRunning S) /\
+    preplay_from ex_live 7 (PRunning S) ex_live_dp = Some (PRunning s1) /\
+    conflict_succ s1 go_B =
+      PRunning (PState [4; -1; -7; 6] [-2; 0; 0; 1; 0; 3; -3]
+                 [None; None; None; None; None;
+                  Some (PBC [(3, 4); (1, -1); (1, 2); (1, 5); (1, 6); (1, 7)] 7); None]
+                 [PBC [(3, 4); (1, -1); (1, 2); (1, 5); (1, 6); (1, 7)] 7] 3 []
+                 [PBC [(3, 4); (1, -1); (1, 2); (1, 5); (1, 6); (1, 7)] 7]).
+Proof. exact livelock_new. Qed.
+Print Assumptions C14c_livelock_repaired.
 
 (* ---- what one call contributes (the facts the composition rests on) ---- *)
 
@@ -217,6 +286,22 @@ Example C14c_ex_go :
   | Some (PRunning s) =>
     ps_trail s = [-3; 1; 5; 4] /\ ps_lvl s = 2 /\
     ps_learned s = [PBC [(2, -1); (1, 2); (1, 4); (1, -5)] 2]
+  | _ => False
+  end.
+Proof. vm_compute. repeat split. Qed.
+
+(* the run of the real solver at 0a73d0f on that problem: the unit x4; then the
+   constraint 2 x4 + x2 + x3 + x7 >= 4 (whole: its unit x4 is already a fact) with a
+   back-jump to level 2; then Sat with the model the solver printed *)
+Example C14c_ex_live :
+  replay_pb ex_live 7 [] ex_live_run
+    = Some (PFinal (PSat [false; true; false; true; true; false; true])) /\
+  pvars_inb 7 ex_live = true /\
+  sat_problem [false; true; false; true; true; false; true] ex_live = true /\
+  match replay_pb ex_live 7 [] (firstn 13 ex_live_run) with
+  | Some (PRunning s) =>
+    ps_trail s = [4; -3; 7] /\ ps_lvl s = 2 /\
+    ps_learned s = [PBC [(2, 4); (1, 2); (1, 3); (1, 7)] 4]
   | _ => False
   end.
 Proof. vm_compute. repeat split. Qed.
